@@ -51,6 +51,7 @@ func (s *Sender) Run(ctx context.Context) {
 			for {
 				if stream == nil {
 					sink = s.Sink
+					streamCancel = nil // no stream is held: an earlier (completed) stream's cancellation must not be waited for
 				} else {
 					sink = nil // a stream is held: taking another one from the Sink would overwrite it and lose its callback
 					streamCancel = stream.Ctx.Done()
